@@ -238,6 +238,9 @@ func (ks *kase) checkCursor(d *encoding.TSDDecoder, b *block, data []byte) bool 
 			if room <= 0 {
 				return end
 			}
+			if r.chance(1, 4) {
+				return start + pos + r.intn(room) // anywhere ahead: crosses whatever gaps the mask has
+			}
 			return start + pos + r.intn(min(room, 1+r.intn(12)))
 		}
 	}
@@ -300,16 +303,24 @@ func (ks *kase) checkCursor(d *encoding.TSDDecoder, b *block, data []byte) bool 
 					}
 				}
 				ks.k.count("tsd_seeks_forward", 1)
+				if hole >= 0 {
+					ks.k.count("tsd_seeks_across_empty_slots", 1)
+				}
 				if got {
+					// the cursor must now be at the target, whether or not empty slots lie in between: the reads that
+					// follow (and Slot()) are judged against that position
 					pos = s - start
+					if hole >= 0 {
+						ks.k.count("tsd_seeks_across_empty_slots_positioned", 1)
+					}
 				} else {
 					if hole < 0 {
 						ks.fail("seek-false-no-gap", fmt.Sprintf("Seek(%d)=false; cursor at %d, all slots in between have values", s, start+pos), w())
 						return false
 					}
-					// Seek gives up at the first empty slot between the cursor and the target although the target is a
-					// valid slot of the block: afterwards a slot-addressed read of `s` says "no value" while the sequential
-					// read has one. The cursor stays just behind the empty slot.
+					// Seek gave up at an empty slot between the cursor and the target although the target is a valid slot
+					// of the block: afterwards a slot-addressed read of `s` says "no value" while the sequential read has
+					// one (defect fixed by e4b0ba5; the cursor used to stay just behind the empty slot).
 					ks.k.count("tsd_seeks_across_empty_slot_failed", 1)
 					if ks.k.seen("C14/tsd-seek-stops-at-empty-slot") {
 						ks.k.violation("C14/tsd-seek-stops-at-empty-slot", "", ks.idx, nil)
